@@ -604,8 +604,10 @@ def lfn_histories(seed, quick):
             raw.append(dict(t='raw', hex=b.hex()))
         v, upc, bounds = geom('G16a' if k % 2 == 0 else 'G32a', tree='T0', nfree=2, bounds=[0])
         if v['fat32']:
-            v['window'] = sorted(set(v['window'] + [3, 4, 5, 6]))
-            v['root_chain'] = [2, 3, 4, 5, 6][: (len(raw) + 15) // 16 + 1]
+            need = (len(raw) + 15) // 16 + 1
+            chain = [2] + list(range(3, 3 + need - 1))
+            v['window'] = sorted(set(v['window'] + chain))
+            v['root_chain'] = chain
         else:
             v['root_entries'] = 512
         v['root'] = raw
